@@ -359,8 +359,21 @@ def _take_fw(ctx, what, rc, out, err, tot, seen):
         elif line.startswith("{"):
             js = json.loads(line)
     if js is None:
-        ctx.violation("C07:firmware:crash", {"impl": "firmware-run", "args": what},
-                      "driver died (rc=%d) in `%s`: %s" % (rc, " ".join(map(str, what)), _san(err)))
+        case, where = {"impl": "firmware-run", "args": what}, ""
+        marks = [l for l in out.splitlines() if l.startswith("P ")]
+        if marks and _exe:
+            # narrow the death down to one input: replay the last configuration FN by FN
+            f = dict(p.split("=") for p in marks[-1].split()[1:])
+            hsn, n, maio = int(f["hsn"]), int(f["n"]), int(f["maio"])
+            vec = "".join("%d %d %d %d\n" % (hsn, maio, n, fn) for fn in FULL_FNS)
+            rc2, out2, _ = cbuild.run(_exe, ["vec"], stdin=vec.encode())
+            last = [l for l in out2.decode().splitlines() if l.startswith("case ")]
+            if rc2 not in (0, 1) and last:
+                g = dict(p.split("=") for p in last[-1].split()[1:])
+                case = {"impl": "firmware", "hsn": hsn, "maio": maio, "n": n, "fn": int(g["fn"])}
+                where = " at hsn=%d maio=%d N=%d fn=%d" % (hsn, maio, n, case["fn"])
+        ctx.violation("C07:firmware:crash", case,
+                      "driver died (rc=%d) in `%s`%s: %s" % (rc, " ".join(map(str, what)), where, _san(err)))
         return
     for k in ("evaluations", "nontrivial", "direct", "wrapped", "cyclic"):
         tot[k] = tot.get(k, 0) + js[k]
